@@ -24,7 +24,7 @@ Definition k_body s : option (kstate * list kitem * bool) :=
       let '(h2, reqs, items) := hk_exec hk (k_h s) (ev_ts e) (ev_pl e) in
       let '(l2, ref) := sched_all A l1 reqs in
       let '(h3, aitems, raised) := hk_after hk h2 (k_iter s) (ev_ts e) in
-      let body := KExec (k_iter s) (ev_ts e) (ev_pl e) :: map (@KUser F P T) items ++ ref ++ map (@KUser F P T) aitems in
+      let body := KExec (k_iter s) (ev_ts e) (ev_seq e) (ev_pl e) :: map (@KUser F P T) items ++ ref ++ map (@KUser F P T) aitems in
       Some (if raised then mkK l2 h3 (k_iter s) true false true
             else mkK l2 h3 (S (k_iter s)) true false false, body, raised)
   end.
